@@ -321,42 +321,15 @@ func (c *Ctx) kindFlowWithTypeTests(fn *ssa.Function, subject func(ssa.Value) bo
 		return cur, cur
 	}
 	kf.full = refine
-	kf.in[fn.Blocks[0]] = AllKinds
-	kf.reached[fn.Blocks[0]] = true
-	work := []*ssa.BasicBlock{fn.Blocks[0]}
-	for len(work) > 0 {
-		b := work[0]
-		work = work[1:]
-		cur := kf.in[b]
-		for _, i := range b.Instrs {
-			if kills != nil && kills(i) {
-				cur = AllKinds
-			}
-		}
-		outs := make([]KindSet, len(b.Succs))
-		for i := range outs {
-			outs[i] = cur
-		}
-		if ifi, ok := b.Instrs[len(b.Instrs)-1].(*ssa.If); ok && len(b.Succs) == 2 {
-			outs[0], outs[1] = refine(ifi.Cond, cur)
-		}
-		for si, s := range b.Succs {
-			nw := kf.in[s] | outs[si]
-			if !kf.reached[s] || nw != kf.in[s] {
-				kf.in[s] = nw
-				kf.reached[s] = true
-				work = append(work, s)
-			}
-		}
-	}
+	kf.solve()
 	return kf
 }
 
-var globalTypeKindsCache map[*ssa.Global]KindSet
+var globalTypeKindsCache = map[*core.Prog]map[*ssa.Global]KindSet{}
 
 func (c *Ctx) globalTypeKinds() map[*ssa.Global]KindSet {
-	if globalTypeKindsCache != nil {
-		return globalTypeKindsCache
+	if m, ok := globalTypeKindsCache[c.P]; ok {
+		return m
 	}
 	out := map[*ssa.Global]KindSet{}
 	if initFn := c.P.SSAPkg.Func("init"); initFn != nil {
@@ -376,7 +349,7 @@ func (c *Ctx) globalTypeKinds() map[*ssa.Global]KindSet {
 			}
 		})
 	}
-	globalTypeKindsCache = out
+	globalTypeKindsCache[c.P] = out
 	return out
 }
 
